@@ -94,4 +94,18 @@ func init() {
 			{ID: "R05.9", Title: "try/catch evaluates the try expression under a recover", Floor: 2, Run: ruleR059},
 		},
 	})
+	register(&Property{
+		ID:        "C06",
+		Technique: "ownership check of value stacks at goroutine-crossing combinators (role table of the iterator dependency), lexical construction-site check of iterator pipelines, effect check of generated closures (no store to compile-time scope), lock-set check of the List cache",
+		Explanation: "Decides necessary conditions of schedule independence: no function that a goroutine-crossing combinator (MapAuto, FilterAuto, Merge) runs concurrently with its consumer or with its sibling shares a value stack with them (every such stack is created inside the producer / per worker); " +
+			"every iterator pipeline with callbacks is built inside the list's producer function, i.e. per iteration; generated closures store nothing into compile-time scope; every access to the materialisation cache of List holds the list's mutex and the producer/size fields are written at construction only. " +
+			"Not decided: equality of parallel and sequential results, order restoration inside the dependency, race freedom in the sense of the race detector.",
+		Assumptions: []string{"role table of the iterator dependency as in R05.1"},
+		Rules: []*Rule{
+			{ID: "R06.1", Title: "value stacks are goroutine confined at MapAuto/FilterAuto/Merge", Floor: 3, Run: ruleR061},
+			{ID: "R06.3", Title: "iterator pipelines with callbacks are constructed per iteration (inside the list producer)", Floor: 15, Run: ruleR063},
+			{ID: "R06.2", Title: "the materialisation cache of List (items, itemsPresent) is accessed under its mutex only; iterable/size are immutable after construction", Floor: 8, Run: ruleR062},
+			{ID: "R10.1a", Title: "generated closures store nothing into generator (compile time) scope", Floor: 25, Run: ruleR101closures},
+		},
+	})
 }
